@@ -150,6 +150,13 @@ def check_corpus(corpus):
                 bad = [w for w in sug if w not in vocab or osa(w, text) > maxdist]
                 if bad:
                     fail("C19-suggest-outside", "suggest(%r, maxdist=%d) = %r contains %r (not a term within the distance)" % (text, maxdist, sug, bad), corpus)
+                # among suggestions at the SAME distance the more frequent word (total occurrences in the field) comes first
+                for ia in range(len(sug)):
+                    for ib in range(ia + 1, len(sug)):
+                        u_, v_ = sug[ia], sug[ib]
+                        if u_ in freq and v_ in freq and osa(u_, text) == osa(v_, text) and freq[u_] < freq[v_]:
+                            fail("C19-suggest-order-frequency", "suggest(%r, maxdist=%d) = %r: %r (%d occurrences) is listed before %r (%d "
+                                 "occurrences) at the same distance" % (text, maxdist, sug, u_, freq[u_], v_, freq[v_]), corpus)
                 exp = sorted((w for w in vocab if w != text and osa(w, text) <= maxdist), key=lambda w: (osa(w, text), -freq[w], w))
                 if not bad and not multi and [osa(w, text) for w in sug] != sorted(osa(w, text) for w in sug):
                     fail("C19-suggest-order-distance", "suggest(%r, maxdist=%d) = %r distances %r not ascending" % (text, maxdist, sug, [osa(w, text) for w in sug]), corpus)
@@ -164,6 +171,10 @@ def gen_corpus(rnd):
     vocab = rnd.sample(universe, rnd.randint(4, 14))
     n = rnd.randint(2, 6)
     docs = [[rnd.choice(vocab) for _ in range(rnd.randint(1, 5))] for _ in range(n)]
+    # some documents repeat one word several times, so that total occurrences and document counts rank words differently
+    for d in docs:
+        if rnd.random() < 0.3:
+            d.extend([rnd.choice(d)] * rnd.randint(2, 4))
     cuts = sorted(set(rnd.sample(range(1, n), rnd.choice([0, 0, 1, 2])))) if n > 2 else []
     used = sorted(set(w for d in docs for w in d))
     probes = rnd.sample(used, min(3, len(used))) + [rnd.choice(universe), rnd.choice(universe)[:2]]
